@@ -52,10 +52,9 @@ func callChains(p *core.Prog, root, fn *ssa.Function) [][]*ssa.Call {
 	return out
 }
 
-// liftThrough rewrites a term of callee vocabulary into the caller's at one call site.
+// liftThrough rewrites a term of callee vocabulary into the caller's at one call site (first feasible caller path).
 func liftThrough(p *core.Prog, t *core.Term, site *ssa.Call) *core.Term {
 	caller := site.Parent()
-	callee := site.Common().StaticCallee()
 	paths, _ := core.EnumPaths(caller, site.Block(), 200)
 	var env *core.Env
 	for _, pa := range paths {
@@ -68,6 +67,12 @@ func liftThrough(p *core.Prog, t *core.Term, site *ssa.Call) *core.Term {
 	if env == nil {
 		return t
 	}
+	return liftWithEnv(env, t, site)
+}
+
+// liftWithEnv rewrites a callee term into the caller's vocabulary using the caller's evaluator for one of its paths.
+func liftWithEnv(env *core.Env, t *core.Term, site *ssa.Call) *core.Term {
+	callee := site.Common().StaticCallee()
 	args := site.Common().Args
 	repl := map[string]*core.Term{}
 	for i, prm := range callee.Params {
@@ -721,23 +726,8 @@ func checkStopOnDest(c *Ctx, e *Engine) {
 		loop := innermostLoop(g, s.Block())
 		// the outer loop is the one containing the send but not nested in the receive loop: take the largest loop containing the send
 		for _, h := range g.Blocks {
-			for _, t := range h.Preds {
-				if h.Dominates(t) {
-					l2 := map[*ssa.BasicBlock]bool{h: true}
-					work := []*ssa.BasicBlock{t}
-					for len(work) > 0 {
-						x := work[len(work)-1]
-						work = work[:len(work)-1]
-						if l2[x] {
-							continue
-						}
-						l2[x] = true
-						work = append(work, x.Preds...)
-					}
-					if l2[s.Block()] && len(l2) > len(loop) {
-						loop = l2
-					}
-				}
+			if l2 := loopOfHeader(h); l2 != nil && l2[s.Block()] && len(l2) > len(loop) {
+				loop = l2
 			}
 		}
 		okBreak := false
